@@ -60,9 +60,10 @@ class Model(object):
         if x.op == "const":
             self.consts.add(_key(x.a[0]))
             return
-        if x.op in ("tuple", "list", "set") and all(z.op == "const" for z in x.a):
+        if x.op in ("tuple", "list", "set"):
+            # membership in a literal collection: its elements are constants or further operands
             for z in x.a:
-                self.consts.add(_key(z.a[0]))
+                self._operand(z)
             return
         if not any(v is x for v in self.vars):
             self.vars.append(x)
